@@ -394,6 +394,77 @@ Laws == TypeOK /\ LawSound /\ LawCardinality /\ LawEveryItem
 (* treat as = identity or XPDY0050 (action property; an InstanceOf step yields a boolean) *)
 TreatLaw == [][acc'.kind = "bool" \/ acc' = acc \/ acc' = Err("XPDY0050")]_vars
 
+---------------------------------------------------------------------------
+(* STATIC NAMESPACE CONTEXT as a dimension (XPath 3.1 2.1.1 "default element/type namespace",   *)
+(* 2.5.5.3 ElementTest / 2.5.5.5 AttributeTest, 3.3.2.1 "an unprefixed QName, when used as a     *)
+(* name test on an axis whose principal node kind is element, has the default element namespace; *)
+(* otherwise it has no namespace").  A kind test names its node by a LEXICAL QName that is        *)
+(* expanded with the statically known namespaces: a prefixed name by its prefix binding, an       *)
+(* unprefixed ELEMENT name by the default element namespace, an unprefixed ATTRIBUTE name is in   *)
+(* no namespace whatever the default is.  Each initial state of NsInit is one judgement           *)
+(*   $item (instance of | treat as) (element|attribute)(N [, T])   under static context d.        *)
+NsPrefixUri == "urn:x"                          \* the prefix p is bound to this URI in every static context
+DefaultNs == <<"", "urn:x", "urn:y">>           \* default element namespace ("" = none declared)
+QN(ns, l) == [ns |-> ns, local |-> l]
+NsItems == << [nk |-> "element", name |-> QN("", "e")], [nk |-> "element", name |-> QN("urn:x", "e")],
+              [nk |-> "attribute", name |-> QN("", "a")], [nk |-> "attribute", name |-> QN("urn:x", "b")] >>
+Lex(p, l) == [p |-> p, l |-> l]                 \* lexical QName: p:l or l ; l = "*" is the wildcard
+NsNames == << Lex(FALSE, "*"), Lex(FALSE, "e"), Lex(TRUE, "e"), Lex(FALSE, "a"), Lex(TRUE, "a"),
+              Lex(FALSE, "b"), Lex(TRUE, "b") >>
+NsKinds == <<"element", "attribute">>
+NsTys == [element |-> <<"*", "untyped", "anyType", "string">>,
+          attribute |-> <<"*", "untypedAtomic", "anyAtomicType", "string">>]
+NsOps == <<"instance", "treat">>
+Expand(kind, n, d) == IF n.p THEN QN(NsPrefixUri, n.l)
+                      ELSE IF kind = "element" THEN QN(d, n.l) ELSE QN("", n.l)
+NsMatch(x, kind, n, ty, d) == /\ x.nk = kind
+                              /\ (n.l = "*" \/ x.name = Expand(kind, n, d))
+                              /\ TypeArgOK(Annotation(x), FALSE, ty, FALSE)
+JudgeOut(op, m) == IF op = "instance" THEN (IF m THEN "true" ELSE "false") ELSE (IF m THEN "same" ELSE "XPDY0050")
+NsOut(i, d, k, n, ty, o) == JudgeOut(NsOps[o], NsMatch(NsItems[i], NsKinds[k], NsNames[n], NsTys[NsKinds[k]][ty], DefaultNs[d]))
+NsInit == \E i \in 1..Len(NsItems), d \in 1..Len(DefaultNs), k \in 1..2, n \in 1..Len(NsNames), ty \in 1..4, o \in 1..2 :
+            acc = [m |-> "ns", x |-> i, d |-> d, k |-> k, n |-> n, ty |-> ty, o |-> o, out |-> NsOut(i, d, k, n, ty, o)]
+StutterNext == UNCHANGED acc
+(* the default element namespace never reaches attribute names, prefixed names and wildcards; an
+   unprefixed element name matches exactly the elements of the default namespace *)
+NsLaw == acc.m = "ns" =>
+  /\ (NsKinds[acc.k] = "attribute" \/ NsNames[acc.n].p \/ NsNames[acc.n].l = "*")
+        => \A d2 \in 1..Len(DefaultNs) : NsOut(acc.x, d2, acc.k, acc.n, acc.ty, acc.o) = acc.out
+  /\ (NsKinds[acc.k] = "element" /\ NsNames[acc.n] = Lex(FALSE, "e") /\ NsItems[acc.x].nk = "element" /\ acc.ty = 1)
+        => ((acc.out \in {"true", "same"}) <=> (NsItems[acc.x].name.ns = DefaultNs[acc.d]))
+
+---------------------------------------------------------------------------
+(* TREAT AS OBSERVED THROUGH CONSUMERS (3.18.5: "If the dynamic type of the operand does not     *)
+(* match the SequenceType, a dynamic error is raised [XPDY0050]"): the judgement concerns the      *)
+(* WHOLE operand value, so its outcome does not depend on how much of the result the enclosing      *)
+(* expression (consumer) or the caller (entry point) pulls.  Each initial state of CInit is one     *)
+(*   consumer( V treat as T )  through entry point e ;  out = "same" means: equal to consumer(V).   *)
+Consumers == <<"all", "exists", "empty", "head", "first", "some", "every", "sub1", "ebv", "not", "if">>
+Entries == <<"select", "evaluate", "tselect", "iter1", "selector">>
+CSingles == {I("integer"), I("string"), <<Node("element", "a")>>, <<Node("attribute", "x")>>}
+CValues == {i \in 1..NV : Len(ValueSeq[i]) # 1 \/ ValueSeq[i] \in CSingles}
+(* consumers taking the effective boolean value are applied to operands whose EBV is defined *)
+Applicable(c, i) == IF Consumers[c] \notin {"ebv", "not", "if"} THEN TRUE
+                    ELSE IF Len(ValueSeq[i]) = 0 THEN TRUE ELSE ValueSeq[i][1].k = "node"
+COut(v, t, c, e) == IF t \in MatchRow[v] THEN "same" ELSE "XPDY0050"
+CInit == \E v \in CValues, t \in 1..NT, c \in 1..Len(Consumers), e \in 1..Len(Entries) :
+           /\ Applicable(c, v) /\ t \notin AmbRow[v]
+           (* quick: the entry point rotates and every (value, type) pair meets every second consumer *)
+           /\ (Universe = "quick" => (e = ((v + t + c) % Len(Entries)) + 1 /\ (v + t + c) % 2 = 0))
+           (* thorough: every consumer, two of the entry points per (value, type, consumer) *)
+           /\ (Universe # "quick" => ((e - 1) - (v + t + c)) % Len(Entries) \in {0, 2})
+           /\ acc = [m |-> "consume", v |-> v, t |-> t, c |-> c, e |-> e, out |-> COut(v, t, c, e)]
+(* the error is a function of (V, T) alone: same outcome as the bare treat expression fully consumed *)
+ConsumerFree == acc.m = "consume" =>
+  \A c2 \in 1..Len(Consumers), e2 \in 1..Len(Entries) : COut(acc.v, acc.t, c2, e2) = COut(acc.v, acc.t, 1, 1)
+(* the class the law is about is inhabited: non-matching operands whose FIRST item alone matches *)
+LateFail(v, t) == /\ t \notin MatchRow[v] /\ Len(ValueSeq[v]) > 1
+                  /\ TypeSeq[t].occ # "0" /\ MatchItem(ValueSeq[v][1], TypeSeq[t].it)
+ASSUME \E v \in CValues, t \in 1..NT : LateFail(v, t) /\ TypeSeq[t].occ \in {"1", "?"}
+ASSUME \E v \in CValues, t \in 1..NT : LateFail(v, t) /\ TypeSeq[t].occ \in {"+", "*"}
+ASSUME PrintT(<<"nsuniverse", <<NsItems, DefaultNs, NsKinds, NsNames, NsTys, NsOps>> >>)
+ASSUME PrintT(<<"consumers", <<Consumers, Entries>> >>)
+
 (* printed once: the universe the indices refer to *)
 ASSUME PrintT(<<"types", TypeSeq>>)
 ASSUME PrintT(<<"values", ValueSeq>>)
